@@ -26,7 +26,8 @@ func (s *skipListIndex) put(key []byte, pos *datafile.DataPos) *datafile.DataPos
 	if oldItem != nil {
 		oldValue = oldItem.Value.(*datafile.DataPos)
 	}
-	s.list.Set(key, pos)
+	// 索引需持有 key 的独立拷贝, 调用方后续可能复用传入的切片
+	s.list.Set(append([]byte(nil), key...), pos)
 	return oldValue
 }
 
